@@ -40,14 +40,16 @@ Proof.
 Qed.
 Print Assumptions C06_text_step_invariant.
 
-(* the boolean checker decides tape_wf; the inductive grammar implies it *)
+(* the boolean checker decides tape_wf *)
 Theorem C06_text_wfb_spec : forall t, tape_wfb t = true <-> tape_wf t.
 Proof. exact tape_wfb_spec. Qed.
 Print Assumptions C06_text_wfb_spec.
 
-Theorem C06_text_grammar_wf : forall t, closed 0 t -> tape_wf t.
-Proof. exact closed_tape_wf. Qed.
-Print Assumptions C06_text_grammar_wf.
+(* the recursive stack checker (with the link conditions) and the inductive grammar [closed]
+   define the same tapes *)
+Theorem C06_text_grammar_iff_wf : forall t, tape_wf t <-> closed 0 t.
+Proof. exact tape_wf_iff_closed. Qed.
+Print Assumptions C06_text_grammar_iff_wf.
 
 Theorem C06_text_parse_grammar : forall input t bom, parse input = Ok (t, bom) -> closed 0 t.
 Proof. exact parse_closed. Qed.
